@@ -30,6 +30,13 @@ struct Sent {
 fn run_case(rep: &mut Report, args: &Args, cs: u64, sink_kind: &str) {
     let mut rng = Rng::new(cs);
     let threads = *rng.pick(&[2usize, 3, 4, 8, 16, 32]);
+    // a quarter of the socket runs: many more threads than cores (100-200) inside emit of the one sink at the same
+    // moment - a web server's worker pool all reporting at once; every acknowledged metric still comes out exactly once
+    let crowd = (sink_kind == "unix" || sink_kind == "udp") && cs % 4 == 1;
+    let threads = if crowd { *rng.pick(&[100usize, 130, 200]) } else { threads };
+    if crowd {
+        rep.obs("stress_runs_with_100_to_200_threads_on_one_socket_sink", 1);
+    }
     let cap = *rng.pick(&[16usize, 24, 64, 512, 1432]);
     let per_thread = (rng.range(2000, 12000) as usize / threads).max(40);
     // how many threads also call flush at random (a quarter of the cases: every thread, and often - a flush then
